@@ -35,6 +35,12 @@ CLAIMS["C14"] = dict(
     technique="Lean 4 proof (invariant by induction over op lists, halving argument) + regenerated constants + differential correspondence",
     ref="5 C14")
 
+CLAIMS["C19"] = dict(
+    text="Lean theorems for every sequence of write/ack-truncate/grow/flush/shutdown/drop/close operations and every initial/maximum size: the ring content is exactly (bytes accepted by write) minus (bytes removed by acknowledgement processing), in order, and its length never exceeds max(initial, maximum); poll_write accepts exactly the prefix that fits, and when nothing fits it returns Pending with the writer's waker registered and buffers nothing; growth keeps content and order and doubles capacity up to the maximum only when below it; truncate_front removes exactly the first n bytes or reports the internal error; the dispatcher's take of the writer waker wakes a blocked writer; accepting writes, shutdown requests and writer drop wake a registered dispatcher; prepare_2_ioslices returns ring[offset, offset+len) for every internal wrap position and never a Bug* error inside the ring. Model tied to stream_tx.rs by differential on the real ring buffer (capacities 1..300, wrap-around, growth, 8192-byte yield path) with position-coded payloads.",
+    note="Trusted: Lean kernel, constants translator, harness; ringbuf::SharedRb modelled as a bounded FIFO (validated by the differential, not proved). The call-site facts that the connection task truncates exactly the acknowledged byte count and wakes the writer after every removal/growth are proved with the connection model (L2).",
+    technique="Lean 4 proof (ghost-history invariant by induction over op lists) + differential correspondence on the real ring buffer",
+    ref="5 C19")
+
 PENDING = {
 }
 
